@@ -159,6 +159,12 @@ DRIVERS = {
                    describe="the 58 conformance strings, every PURL literal of the repository's unit tests and doc examples, and 7 seeds: as they are, with every single look-alike substitution, and mutated (delete/insert token, swap, escape toggle, case toggle, look-alike substitution, appended component)"),
     "scalars": dict(trace="Trace_Stateless", quick=1500, thorough=1114112,
                     describe="Unicode scalar values (boundaries + seeded sample; thorough: every scalar value) in a nuget name (escaped), a pypi name (raw) and a generic name"),
+    "vocab": dict(trace="Trace_Stateless", quick=1, thorough=2,
+                  describe="the vocabulary of real package URLs: (16 types, quick 8) x 20 well-known qualifier keys x 21 values as they occur in the wild (jar, pom, git+https URLs, digests, ...) "
+                           "and type x 13 names x 14 version shapes (v8.11.5, 2 / 10 / 1a, rc and build suffixes), each parsed and built; 16 ecosystem-style combined names x 7 types"),
+    "escapes": dict(trace="Trace_Stateless", quick=1, thorough=2,
+                    describe="every %XY over class representatives (thorough: all printable ASCII) in every decoded component; every ASCII byte and some non-ASCII digits as checksum digest "
+                             "characters, raw and escaped, parsed and built"),
     "builder-ops": dict(trace="Trace_Stateless", quick=2500, thorough=80000,
                         describe="random builder call sequences with arbitrary Unicode arguments, build(), and the parse of the printed form"),
     "repo-tests": dict(trace="Trace_Stateless", kind="repo-tests", quick=1, thorough=1,
@@ -185,25 +191,25 @@ DRIVERS = {
 PARSE_ALL = ["PARSE-SEP", "PARSE-PATH", "PARSE-QUAL", "PARSE-TYPED", "PARSE-NS", "PARSE-SUB", "PARSE-QUALS2", "PARSE-UPKEYS", "PARSE-UPTYPE", "SPELL", "FAULT"]
 BUILD_ALL = ["BUILDER-G", "BUILDER-T", "BUILDER-SIM-G", "BUILDER-SIM-T", "BUILDER-SEQ"]
 PROPS = {
-    "C01": dict(suites=PARSE_ALL + ["FORMAT-1", "TYPES-NAMES", "SYSTEM-G", "SYSTEM-T"], drivers=["garbage", "corpus", "lengths", "repo-tests"]),
-    "C02": dict(suites=PARSE_ALL, drivers=["corpus", "lengths", "repo-tests"]),
-    "C03": dict(suites=["FORMAT-1", "FORMAT-2", "PARSE-QUAL", "PARSE-QUALS2", "BUILDER-G", "BUILDER-SEQ"], drivers=["scalars", "builder-ops"]),
+    "C01": dict(suites=PARSE_ALL + ["FORMAT-1", "TYPES-NAMES", "SYSTEM-G", "SYSTEM-T"], drivers=["garbage", "corpus", "lengths", "repo-tests", "vocab", "escapes"]),
+    "C02": dict(suites=PARSE_ALL, drivers=["corpus", "lengths", "repo-tests", "vocab", "escapes"]),
+    "C03": dict(suites=["FORMAT-1", "FORMAT-2", "PARSE-QUAL", "PARSE-QUALS2", "BUILDER-G", "BUILDER-SEQ"], drivers=["scalars", "builder-ops", "vocab"]),
     "C04": dict(suites=PARSE_ALL + BUILD_ALL + ["SHAPES", "SYSTEM-G", "SYSTEM-T", "QUAL"], drivers=["garbage", "builder-ops", "repo-tests"]),
-    "C05": dict(suites=PARSE_ALL + ["CHECKSUM"], drivers=["corpus", "garbage", "lengths"]),
-    "C06": dict(suites=PARSE_ALL + ["QUAL", "QUAL-SIM", "CHECKSUM", "BUILDER-G", "BUILDER-T", "BUILDER-SIM-G", "FORMAT-1", "TYPES-LOOKUP", "TYPES-COMB", "TYPES-NAMES", "TYPES-STR", "SHAPES", "SYSTEM-T"], drivers=["garbage", "corpus", "scalars", "lengths", "qual-ops", "checksum-ops", "builder-ops", "type-strings", "combined", "big"]),
-    "C07": dict(suites=["PARSE-NS", "PARSE-SUB", "PARSE-PATH", "PARSE-SEP", "SPELL", "FAULT"], drivers=["garbage", "corpus", "lengths"]),
-    "C08": dict(suites=["TYPES-NAMES", "TYPES-LOOKUP", "PARSE-TYPED", "BUILDER-T", "TYPES-COMB"], drivers=["scalars", "corpus"]),
-    "C09": dict(suites=BUILD_ALL + ["FORMAT-1", "FORMAT-2", "SYSTEM-G", "SYSTEM-T", "TYPES-NAMES", "TYPES-STR"], drivers=["builder-ops", "lengths", "repo-tests"]),
-    "C10": dict(suites=PARSE_ALL + ["BUILDER-G", "BUILDER-T", "FORMAT-1", "TYPES-NAMES", "TYPES-STR", "CHECKSUM", "SYSTEM-G", "SYSTEM-T"], drivers=["scalars", "corpus", "lengths"]),
+    "C05": dict(suites=PARSE_ALL + ["CHECKSUM"], drivers=["corpus", "garbage", "lengths", "escapes"]),
+    "C06": dict(suites=PARSE_ALL + ["QUAL", "QUAL-SIM", "CHECKSUM", "BUILDER-G", "BUILDER-T", "BUILDER-SIM-G", "FORMAT-1", "TYPES-LOOKUP", "TYPES-COMB", "TYPES-NAMES", "TYPES-STR", "SHAPES", "SYSTEM-T"], drivers=["garbage", "corpus", "scalars", "lengths", "qual-ops", "checksum-ops", "builder-ops", "type-strings", "combined", "big", "vocab", "escapes"]),
+    "C07": dict(suites=["PARSE-NS", "PARSE-SUB", "PARSE-PATH", "PARSE-SEP", "SPELL", "FAULT"], drivers=["garbage", "corpus", "lengths", "escapes"]),
+    "C08": dict(suites=["TYPES-NAMES", "TYPES-LOOKUP", "PARSE-TYPED", "BUILDER-T", "TYPES-COMB"], drivers=["scalars", "corpus", "vocab"]),
+    "C09": dict(suites=BUILD_ALL + ["FORMAT-1", "FORMAT-2", "SYSTEM-G", "SYSTEM-T", "TYPES-NAMES", "TYPES-STR"], drivers=["builder-ops", "lengths", "repo-tests", "vocab"]),
+    "C10": dict(suites=PARSE_ALL + ["BUILDER-G", "BUILDER-T", "FORMAT-1", "TYPES-NAMES", "TYPES-STR", "CHECKSUM", "SYSTEM-G", "SYSTEM-T"], drivers=["scalars", "corpus", "lengths", "vocab"]),
     "C11": dict(suites=["QUAL", "QUAL-SIM"], drivers=["qual-ops"]),
-    "C12": dict(suites=["CHECKSUM", "BUILDER-G", "QUAL", "PARSE-QUAL", "SPELL"], drivers=["checksum-ops", "corpus"]),
+    "C12": dict(suites=["CHECKSUM", "BUILDER-G", "QUAL", "PARSE-QUAL", "SPELL"], drivers=["checksum-ops", "corpus", "escapes"]),
     "C13": dict(suites=["TYPES-STR", "PARSE-SEP", "PARSE-PATH", "SPELL", "BUILDER-G", "BUILDER-SIM-G", "FORMAT-1"], drivers=["garbage", "corpus", "builder-ops"]),
     "C14": dict(suites=["SHAPES"], drivers=[]),
     "C15": dict(suites=["TYPES-LOOKUP", "PARSE-TYPED", "FAULT", "PARSE-UPTYPE"], drivers=["type-strings"]),
     "C16": dict(suites=["PARSE-SEP", "PARSE-PATH", "PARSE-QUAL", "PARSE-TYPED", "SPELL", "FAULT", "FORMAT-1", "FORMAT-2", "BUILDER-G", "BUILDER-T", "TYPES-LOOKUP", "SYSTEM-G", "SYSTEM-T"], drivers=["garbage", "corpus"]),
     "C17": dict(suites=[], drivers=[], extra="c17",
                 assumptions=["feature sets are compile-time: the harness is compiled once per set; TLC supplies the common case stream and validates the zipped transcripts, it does not enumerate configurations"]),
-    "C18": dict(suites=["TYPES-COMB", "TYPES-COMBESC", "SYSTEM-T"], drivers=["combined", "corpus", "garbage"]),
+    "C18": dict(suites=["TYPES-COMB", "TYPES-COMBESC", "SYSTEM-T"], drivers=["combined", "corpus", "garbage", "vocab"]),
     "C19": dict(suites=["VALUES", "PARSE-QUAL", "PARSE-QUALS2", "PARSE-UPKEYS", "FORMAT-1", "QUAL", "BUILDER-G", "BUILDER-SEQ", "SYSTEM-G", "SYSTEM-T"], drivers=["pairs", "builder-ops"]),
 }
 
